@@ -2,6 +2,7 @@ from .base import DistinguisherMixin, _StandaloneDistinguisher
 import numpy as _np
 import numba as _nb
 import time as _time
+import os as _os
 import logging as _logging
 
 logger = _logging.getLogger(__name__)
@@ -119,6 +120,10 @@ class PartitionedDistinguisherMixin(_PartitionnedDistinguisherBaseMixin):
             if not hasattr(self, '_timings'):
                 self._timings = [-2, -1]
             function_idx = _np.argmin(self._timings)
+            if _os.environ.get('SCARED_VERIF') == '1':  # verification hook: forced kernel choice, log of the kernels used
+                if getattr(self, '_verif_force_kernel', None):
+                    function_idx = int(self._verif_force_kernel.pop(0))
+                self.__dict__.setdefault('_verif_kernel_log', []).append(int(function_idx))
             function = [self._accumulate_core_1, self._accumulate_core_2][function_idx]
             t0 = _time.process_time()
             function(traces, data, self.sum, self.sum_square, self.counters, self.precision)
